@@ -315,9 +315,6 @@ def run_case(ctx):
             k = max(int(np.sum(ns > t)), 1)
             if "both" in tgt:
                 k2 = min(k, int(limits[c]))
-                if k2 < k and k2 < len(sv) and abs(sv[k2 - 1] - sv[k2]) <= 1e-7 * sv[0]:
-                    ctx.cls("kept-count:limit-inside-degenerate-multiplet")
-                    break
                 mk = int(limits[c])
                 if mk < len(sv):
                     alt = int(np.sum(sv[:mk] / max(float(np.linalg.norm(sv[:mk])), 1e-300) > t))
@@ -333,6 +330,11 @@ def run_case(ctx):
             if not ctx.check(after[c] == k, "kept-count-differs-from-documented-criterion|" + list(tgt)[0], cut=c, kept=after[c],
                              documented=k, threshold=t, normalised_singular_values=ns[:8].tolist(), after=after,
                              limits=limits):
+                break
+            if k < len(sv) and abs(sv[k - 1] - sv[k]) <= 1e-7 * sv[0]:
+                # the cut runs through a degenerate multiplet: which of the equal directions survive is arbitrary, so
+                # the spectra of the later cuts are no longer determined
+                ctx.cls("kept-count:cut-inside-degenerate-multiplet")
                 break
             vec = ((u[:, :k] * sv[:k]) @ vh[:k]).reshape(vec.shape)
     ctx.check(np.array_equal(np.asarray(mps.qntot), qntot_before), "compress|qntot-changed", before=qntot_before, after=mps.qntot)
